@@ -2,8 +2,8 @@
 C06 / C07 — the schema IR and `Schema::intersect` (model M7, `Model/Schema.lean`).
 
 `allOf`, `anyOf`, `oneOf`, `enum`, `const` and sibling keywords are all compiled by intersecting IR
-nodes (`parser/src/json/schema.rs`).  The theorem: on the fragment without `oneOf` (and without
-objects and `$ref`, which M7 does not model) the node `intersect` returns means exactly the
+nodes (`parser/src/json/schema.rs`).  The theorem: on the fragment without `oneOf` (M7 has every node
+kind including objects; `$ref` and `patternProperties` are not modelled) the node `intersect` returns means exactly the
 conjunction of its operands — for every JSON value, every recursion budget, every pair of nodes —
 and `normalize` does not change the meaning.  `multipleOf` values are combined by the code's checked
 least common multiple, which is shown to have exactly the common multiples (`c06_lcm_multiples`).
